@@ -69,6 +69,17 @@ CHECKS['C16'] = dict(
     design_ref='DESIGN.md section 6, C16',
     technique='Coq proof (codec corollary, invariant over all schedules, decision-table characterisation) + in-Coq correspondence with real client/server')
 
+CHECKS['C19'] = dict(
+    text='Theorems over every registration program, every request of the five routable types, every metadata shape and every '
+         'verifier (props/C19.v): the handler that runs is exactly the one registered for (type, first tag of the first routing '
+         'entry), else that type\'s unknown-route handler, else the per-type error outcome with no handler run; with a verifier '
+         'configured no handler of any of the five types runs without an authentication entry the verifier accepts; parameters '
+         'receive payload / parsed composite metadata / deserialised payload as the code decides. The dispatch tables are proved '
+         'equal to tables regenerated from the source each run. Tied to request_router.py / routing_request_handler.py by an '
+         'exhaustive cross-product correspondence through the real decorators and handler methods, evaluated in Coq.',
+    design_ref='DESIGN.md section 6, C19',
+    technique='Coq proof (decision-logic theorems over all route tables and requests) + regenerated dispatch tables + in-Coq correspondence')
+
 NOT_YET = {}
 
 def main():
